@@ -326,7 +326,7 @@ Fixpoint ckids (l : list (string * tree)) : list key :=
 Lemma collect_eq : forall tm ks, collect (Node tm ks) = otl tm ++ ckids ks.
 Proof.
   intros tm ks. simpl. f_equal.
-  induction ks as [|[c ch] r IH]; simpl; [reflexivity|]. rewrite IH. reflexivity.
+  all: induction ks as [|[c ch] r IH]; simpl; [reflexivity|rewrite IH; reflexivity].
 Qed.
 
 Lemma ckids_In : forall ks k, In k (ckids ks) <-> exists c ch, In (c, ch) ks /\ In k (collect ch).
@@ -346,8 +346,13 @@ Lemma collect_In : forall tm ks k,
   In k (collect (Node tm ks)) <-> tm = Some k \/ exists c ch, In (c, ch) ks /\ In k (collect ch).
 Proof.
   intros tm ks k. rewrite collect_eq, in_app_iff, ckids_In.
-  destruct tm as [k0|]; simpl; intuition; try congruence.
-  left. left. congruence.
+  destruct tm as [k0|]; simpl.
+  - split.
+    + intros [[H|[]]|H]; [left; congruence|right; exact H].
+    + intros [H|H]; [left; left; congruence|right; exact H].
+  - split.
+    + intros [[]|H]; right; exact H.
+    + intros [H|H]; [discriminate|right; exact H].
 Qed.
 
 Lemma collect_t_In : forall t k,
@@ -414,7 +419,9 @@ Lemma tree_set_collect : forall p full t, In full (collect (tree_set p full t)).
 Proof.
   induction p as [|c p IH]; intros full t.
   - apply collect_t_In. left. reflexivity.
-  - simpl. eapply collect_kid_In; [simpl; apply In_kset_self|apply IH].
+  - apply (collect_kid_In _ c (tree_set p full
+             (match kget c (t_kids t) with Some ch => ch | None => empty_tree end)));
+      [simpl; apply In_kset_self|apply IH].
 Qed.
 
 (* terminals reached by walking are collected *)
